@@ -433,7 +433,7 @@ def _check_writes_on_paths(f, var):
 
 MUTATING = {'pop', 'popitem', 'clear', 'update', 'setdefault', 'append', 'extend', 'insert',
             'remove', 'sort', 'reverse', 'rebind', 'sym_rebind', '__setitem__', '__delitem__',
-            'add', 'discard', 'seal', 'set_accessor_writable', 'use_value_spec'}
+            'add', 'discard', 'seal', 'sym_seal', 'set_accessor_writable', 'use_value_spec'}
 RENDERED = {'value', 'kv', 'parent', 'items'}
 
 
